@@ -226,6 +226,21 @@ ApplyBase(st, ins) ==
                                 IN Ok([WithStack(st, Rest(s, 2)) EXCEPT !.mem = MemWrite(st.mem, a0, <<a1, w[2], w[3], w[4]>>)])
     [] op = "mem_storew" -> IF ~IsU32(a0) THEN Fail("MemoryAddressOutOfBounds", 0)
                             ELSE Ok([WithStack(st, Rest(s, 1)) EXCEPT !.mem = MemWrite(st.mem, a0, <<At(s, 4), At(s, 3), At(s, 2), At(s, 1)>>)])
+    \* two-word transfers: [C, B, A, a, ...] -> [E, D, A, a + 2, ...]; the word for address a lands in positions 4..7
+    \* (D), the word for a + 1 in positions 0..3 (E); design/stack/io_ops.md MSTREAM / PIPE.  Both addresses must be < 2^32.
+    [] op = "mem_stream" ->
+         LET a == At(s, 12) IN
+         IF ~IsU32(a) \/ ~IsU32(FAdd(a, F1)) THEN Fail("MemoryAddressOutOfBounds", 0)
+         ELSE LET d == MemRead(st.mem, a)  e == MemRead(st.mem, FAdd(a, F1))
+              IN Ok(WithStack(st, <<e[4], e[3], e[2], e[1], d[4], d[3], d[2], d[1]>> \o SubSeq(s, 9, 12) \o <<FAdd(a, F2)>> \o Rest(s, 13)))
+    [] op = "adv_pipe" ->
+         LET a == At(s, 12) IN
+         IF Len(st.adv) < 8 THEN Fail("AdviceStackReadFailed", 0)
+         ELSE IF ~IsU32(a) \/ ~IsU32(FAdd(a, F1)) THEN Fail("MemoryAddressOutOfBounds", 0)
+         ELSE LET d == SubSeq(st.adv, 1, 4)  e == SubSeq(st.adv, 5, 8)
+              IN Ok([WithStack(st, <<e[4], e[3], e[2], e[1], d[4], d[3], d[2], d[1]>> \o SubSeq(s, 9, 12) \o <<FAdd(a, F2)>> \o Rest(s, 13))
+                     EXCEPT !.adv = Rest(st.adv, 8),
+                            !.mem = MemWrite(MemWrite(st.mem, a, d), FAdd(a, F1), e)])
     [] OTHER -> [ok |-> "unknown"]
 
 \* immediate forms: "the operand with the specified name is not present on the stack"
